@@ -154,7 +154,7 @@ def feature_classes(tags):
     for t in tags:
         if t.startswith("act:"):
             out.add("act:" + t.split(":")[1])
-        elif t.startswith(("dsbl:", "int:", "cone:")) or t in PROFILES:
+        elif t.startswith(("dsbl:", "int:", "cone:", "not_generated:")) or t in PROFILES:
             continue
         else:
             out.add(t)
@@ -631,7 +631,11 @@ def gen_model(rng, profile="contact", nbody=None, integrator=None, sensors=True,
                 if dyn != "none" and (rng.random() < 0.5 or take("clamp:actrange")):
                     extra += ' actlimited="true" actrange="%s %s"' % (_f(-rng.uniform(0.1, 1)), _f(rng.uniform(0.1, 1)))
                     tags.append("clamp:actrange")
-                if dyn != "none" and (rng.random() < 0.3 or take("actearly")):
+                xor_sd = ("spring" in disable) != ("damper" in disable)
+                if xor_sd and dyn != "none" and (w("actearly") or rng.random() < 0.3):
+                    tags.append("not_generated:actearly+spring-xor-damper-disabled")   # untriaged combination (audit B6 follow-up)
+                    pending.discard("actearly")
+                elif dyn != "none" and (rng.random() < 0.3 or take("actearly")):
                     extra += ' actearly="true"'
                     tags.append("actearly")
                 A.append("<general %s %s/>" % (common, extra))
@@ -656,6 +660,12 @@ def gen_model(rng, profile="contact", nbody=None, integrator=None, sensors=True,
                 kinds += ["weldmocap"]
             if not kinds:
                 break
+            if integ == "RK4" and (("spring" in disable) != ("damper" in disable)) and {"connect", "weld", "weldmocap"} & set(kinds):
+                # untriaged combination: RK4 with the passive-forces and the Jdot*v differences active together
+                kinds = [k_ for k_ in kinds if k_ not in ("connect", "weld", "weldmocap")]
+                tags.append("not_generated:rk4+connect/weld+spring-xor-damper-disabled")
+                if not kinds:
+                    break
             k = str(rng.choice(kinds))
             if weq and weq[0] in kinds:
                 k = weq.pop(0)
@@ -762,7 +772,14 @@ def gen_model(rng, profile="contact", nbody=None, integrator=None, sensors=True,
     if S:
         X += ["<sensor>"] + S + ["</sensor>"]
     X.append("</mujoco>")
-    return "\n".join(X), sorted(set(tags))
+    xml = "\n".join(X)
+    if integ == "implicitfast" and gate is None and any(t == "free" for _, t, _ in joints):
+        # NOT GENERATED: implicitfast with a free-joint body in the random profiles. The C engine treats free bodies specially
+        # in implicitfast (computation/index.rst: gyroscopic derivatives reinstated with a local solve), MJX does not, and the
+        # check's recomputation of C's update - needed to confirm the known qDeriv findings - does not validate on such models
+        xml = xml.replace('integrator="implicitfast"', 'integrator="Euler"', 1)
+        tags = [t for t in tags if t != "int:implicitfast"] + ["int:Euler", "not_generated:implicitfast+free-joint-body"]
+    return xml, sorted(set(tags))
 
 
 def _tendon_attrs(rng, P, tags, take=lambda t: False, armature=True):
